@@ -4,6 +4,7 @@ CONSTANTS
   MaxN = 3
   ValTab <- ValsPrime
   Refs = {0, 1, 2, 3, 4}
+  SymKinds = {}
   Canon = TRUE
   Kinds = {"R","G","Z","Y","LV","LI","V","VL","I","IL","S","O"}
 INVARIANT Check
